@@ -2,7 +2,7 @@
    property oracle of C01.  Everything the OCaml runner of this property
    executes goes through run_case. *)
 From Coq Require Import ZArith List String.
-From ST Require Import Base.Ints Base.Value Base.F64 Model.NtpTime Model.Units Model.Ftm Model.Sync Model.SyncConfig Extract.GlueBase.
+From ST Require Import Base.Ints Base.Value Base.Sorting Base.F64 Model.NtpTime Model.Units Model.Ftm Model.Sync Model.SyncConfig Extract.GlueBase.
 Import ListNotations.
 Open Scope string_scope.
 Open Scope Z_scope.
@@ -10,41 +10,6 @@ Open Scope Z_scope.
 (* one source in one round: [kind value delay]; kind 0 = answers value after
    delay < timeout, 1 = error after delay, 2 = answers value after delay >
    timeout, 3 = blocks until the round's context ends, then error *)
-Definition src_of_value (timeout : Z) (v : value) : option src :=
-  match v with
-  | VL [VZ k; VZ x; VZ d] =>
-      if k =? 0 then (if (0 <=? d) && (d <? timeout) then Some (Timely x) else None)
-      else if k =? 1 then Some Failed
-      else if k =? 2 then (if timeout <? d then Some Failed else None)
-      else if k =? 3 then Some Failed
-      else None
-  | _ => None
-  end.
-
-Fixpoint srcs_of_values (timeout : Z) (l : list value) : option (list src) :=
-  match l with
-  | [] => Some []
-  | v :: r => match src_of_value timeout v, srcs_of_values timeout r with
-              | Some s, Some ss => Some (s :: ss) | _, _ => None end
-  end.
-
-Definition rnd_of_value (timeout : Z) (nref npeer : nat) (v : value) : option rnd :=
-  match v with
-  | VL [VL a; VL b] =>
-      match srcs_of_values timeout a, srcs_of_values timeout b with
-      | Some ra, Some rb =>
-          if Nat.eqb (length ra) nref && Nat.eqb (length rb) npeer then Some (mkrnd ra rb) else None
-      | _, _ => None end
-  | _ => None
-  end.
-
-Fixpoint rnds_of_values (timeout : Z) (nref npeer : nat) (l : list value) : option (list rnd) :=
-  match l with
-  | [] => Some []
-  | v :: r => match rnd_of_value timeout nref npeer v, rnds_of_values timeout nref npeer r with
-              | Some x, Some xs => Some (x :: xs) | _, _ => None end
-  end.
-
 Definition value_of_event (e : event) : value :=
   match e with
   | EDo c => VL [VZ 0; VZ c]
@@ -76,29 +41,98 @@ Definition setting_of_value (v : value) : option (option f64) :=
   | _ => None
   end.
 
-Definition glue_C01 (k : string) (a o : list value) : option verdict :=
-  if is k "sync.run" then
-    (* args: mode dval refbits peerbits cutoff timeout interval nref npeer rounds
-       mode 0: the real clocks.SystemClock with configured drift dval ns/s; mode 1: a scripted clock whose Drift returns dval
-       observed: panicked, events in order ([0 c] = Do c, [1 d] = Sleep d, [2 a r] = Drift(a) = r, [3 _] = any other clock call) *)
+(* ---- ties at the deadline: a source whose answer completes exactly when the round's context ends
+   (delay = timeout) may or may not be counted; every resolution is a correct behaviour ---- *)
+Definition src_alts (timeout : Z) (v : value) : option (list src) :=
+  match v with
+  | VL [VZ k; VZ x; VZ d] =>
+      if k =? 0 then (if (0 <=? d) && (d <? timeout) then Some [Timely x]
+                      else if d =? timeout then Some [Timely x; Failed] else None)
+      else if k =? 1 then Some [Failed]
+      else if k =? 2 then (if timeout <? d then Some [Failed] else None)
+      else if k =? 3 then Some [Failed]
+      else None
+  | _ => None
+  end.
+
+Fixpoint prod {A : Type} (l : list (list A)) : list (list A) :=
+  match l with
+  | [] => [[]]
+  | xs :: r => flat_map (fun x => map (cons x) (prod r)) xs
+  end.
+
+Fixpoint all_some {A : Type} (l : list (option A)) : option (list A) :=
+  match l with
+  | [] => Some []
+  | Some x :: r => match all_some r with Some xs => Some (x :: xs) | None => None end
+  | None :: _ => None
+  end.
+
+Definition srcs_alts (timeout : Z) (l : list value) : option (list (list src)) :=
+  match all_some (map (src_alts timeout) l) with Some a => Some (prod a) | None => None end.
+
+Definition rnd_alts (timeout : Z) (nref npeer : nat) (v : value) : option (list rnd) :=
+  match v with
+  | VL [VL a; VL b] =>
+      if Nat.eqb (length a) nref && Nat.eqb (length b) npeer then
+        match srcs_alts timeout a, srcs_alts timeout b with
+        | Some ra, Some rb => Some (flat_map (fun x => map (fun y => mkrnd x y) rb) ra)
+        | _, _ => None end
+      else None
+  | _ => None
+  end.
+
+(* all resolutions of a history (the harness scripts at most three ties: at most eight) *)
+Definition rnds_alts (timeout : Z) (nref npeer : nat) (l : list value) : option (list (list rnd)) :=
+  match all_some (map (rnd_alts timeout nref npeer) l) with
+  | Some a => let p := prod a in if (length p <=? 64)%nat then Some p else None
+  | None => None end.
+
+Definition is_kind0 (v : value) : bool := match v with VL [VZ 0; _; _] => true | _ => false end.
+Definition round_has_kind0 (v : value) : bool :=
+  match v with VL [VL a; VL b] => existsb is_kind0 a || existsb is_kind0 b | _ => false end.
+
+(* sync.run / sync.extreme.
+   args: mode dval refbits peerbits cutoff timeout interval nref npeer rounds
+     mode 0: the real clocks.SystemClock with configured drift dval ns/s; mode 1: a scripted clock whose Drift returns dval
+   observed: panicked, events in order ([0 c] = Do c, [1 d] = Sleep d, [2 a r] = Drift(a) = r, [3 _] = any other clock call)
+   strict: the bound of the property at full strength - every correction within the peer cap, also when the caps exceed 2^62 ns *)
+Definition judge_run (strict : bool) (a o : list value) : option verdict :=
     match a with
     | [VZ mode; VZ dval; VZ rb; VZ pb; VZ cutoff; VZ timeout; VZ interval; VZ nref; VZ npeer; VL rounds] =>
         let nr := Z.to_nat nref in let np := Z.to_nat npeer in
-        match rnds_of_values timeout nr np rounds with
+        let cfg := mkcfg (f_of_bits rb) (f_of_bits pb) cutoff timeout interval in
+        let D := if mode =? 0 then sysclk_drift dval interval else dval in
+        let oracle_of (rs : list rnd) (opan : Z) (es : list event) : bool :=
+          let drift_ok :=
+            if mode =? 0 then forallb (fun e => match e with EDrift x r => C01_drift_ok dval x r | _ => true end) es
+            else true in
+          C01_ok cfg nr np rs (negb (opan =? 0), es) && drift_ok &&
+          (if strict then forallb (fun e => match e with EDo c => within c (cap (c_peer cfg) D) | _ => true end) es else true) in
+        if (timeout =? 0) && ((0 <? npeer) || existsb round_has_kind0 rounds) then
+          (* SyncTimeout = 0: the context of a round is over when it is created; whether an immediately answering
+             source, or the local clock among the peers, is still counted is a tie for each of them.  Only the clauses
+             that hold whatever values were collected are judged (all sources treated as not timely: start-up refusal,
+             one Do and one Sleep per round, the bound); the verdict is relational *)
+          let rs := map (fun _ => mkrnd (repeat Failed nr) (repeat Failed np)) rounds in
+          match o with
+          | [VZ opan; VL oevs] =>
+              match events_of_values oevs with
+              | Some es => let ok := oracle_of rs opan es in Some (relational ok ok)
+              | None => Some (relational false true)
+              end
+          | _ => Some (relational false true)
+          end
+        else
+        match rnds_alts timeout nr np rounds with
         | None => None
-        | Some rs =>
-            let cfg := mkcfg (f_of_bits rb) (f_of_bits pb) cutoff timeout interval in
-            let D := if mode =? 0 then sysclk_drift dval interval else dval in
+        | Some [rs] =>
             let '(pan, evs) := run cfg D nr np rs in
             let expected := [vbool pan; VL (map value_of_event evs)] in
             match o with
             | [VZ opan; VL oevs] =>
                 match events_of_values oevs with
-                | Some es =>
-                    let drift_ok :=
-                      if mode =? 0 then forallb (fun e => match e with EDrift x r => C01_drift_ok dval x r | _ => true end) es
-                      else true in
-                    Some (functional expected o (C01_ok cfg nr np rs (negb (opan =? 0), es) && drift_ok))
+                | Some es => Some (functional expected o (oracle_of rs opan es))
                 (* an observation that is not a sequence of Do / Sleep / Drift events (the harness writes [3 _] for
                    any other call of the clock, which Run never makes): the oracle cannot be evaluated and is left
                    true; the model comparison fails (the expected sequence has only kinds 0, 1, 2), so the case is
@@ -107,39 +141,25 @@ Definition glue_C01 (k : string) (a o : list value) : option verdict :=
                 end
             | _ => Some (functional expected o true)
             end
-        end
-    | _ => None end
-  else if is k "sync.extreme" then
-    (* as sync.run, with the bound of the property at full strength: every correction within the peer cap,
-       also when the caps exceed 2^62 ns *)
-    (* args: mode dval refbits peerbits cutoff timeout interval nref npeer rounds
-       mode 0: the real clocks.SystemClock with configured drift dval ns/s; mode 1: a scripted clock whose Drift returns dval
-       observed: panicked, events in order ([0 c] = Do c, [1 d] = Sleep d, [2 a r] = Drift(a) = r, [3 _] = any other clock call) *)
-    match a with
-    | [VZ mode; VZ dval; VZ rb; VZ pb; VZ cutoff; VZ timeout; VZ interval; VZ nref; VZ npeer; VL rounds] =>
-        let nr := Z.to_nat nref in let np := Z.to_nat npeer in
-        match rnds_of_values timeout nr np rounds with
-        | None => None
-        | Some rs =>
-            let cfg := mkcfg (f_of_bits rb) (f_of_bits pb) cutoff timeout interval in
-            let D := if mode =? 0 then sysclk_drift dval interval else dval in
-            let '(pan, evs) := run cfg D nr np rs in
-            let expected := [vbool pan; VL (map value_of_event evs)] in
+        | Some rss =>
+            (* ties at the deadline: the model agrees if one resolution reproduces the observation, the oracle
+               accepts if the observation is correct for one resolution *)
+            let agrees (rs : list rnd) :=
+              let '(pan, evs) := run cfg D nr np rs in values_eqb [vbool pan; VL (map value_of_event evs)] o in
             match o with
             | [VZ opan; VL oevs] =>
                 match events_of_values oevs with
-                | Some es =>
-                    let drift_ok :=
-                      if mode =? 0 then forallb (fun e => match e with EDrift x r => C01_drift_ok dval x r | _ => true end) es
-                      else true in
-                    Some (functional expected o (C01_ok cfg nr np rs (negb (opan =? 0), es) && drift_ok &&
-                            forallb (fun e => match e with EDo c => within c (cap (c_peer cfg) D) | _ => true end) es))
-                | None => Some (functional expected o true)
+                | Some es => Some (relational (existsb agrees rss) (existsb (fun rs => oracle_of rs opan es) rss))
+                | None => Some (relational false true)
                 end
-            | _ => Some (functional expected o true)
+            | _ => Some (relational false true)
             end
         end
-    | _ => None end
+    | _ => None end.
+
+Definition glue_C01 (k : string) (a o : list value) : option verdict :=
+  if is k "sync.run" then judge_run false a o
+  else if is k "sync.extreme" then judge_run true a o
   else if is k "sync.drift" then
     match a, o with
     | [VZ drift_ns; VZ d], [VZ r] => Some (functional [VZ (sysclk_drift drift_ns d)] o (C01_drift_ok drift_ns d r))
@@ -168,6 +188,31 @@ Definition glue_C01 (k : string) (a o : list value) : option verdict :=
         | _, _, _, _, _, _ => None
         end
     | _ => None end
+  else if is k "sync.wiring" then
+    (* source-level tie of timeservice.go (function 0 runServer, 1 runClient, 2 createClocks): the rules that do not hold *)
+    match a, o with
+    | [VZ fn], [VL viol] => Some (functional [VL []] o (C01_wiring_ok viol))
+    | _, _ => Some (functional [VL []] o false)
+    end
+  else if is k "sync.build" then
+    (* the service builds with the verification hooks (otherwise the configuration kinds cannot run): not a
+       statement of the property, so a failure is reported as broken correspondence *)
+    Some (functional [VZ 1] o true)
+  else if is k "sync.sleep" then
+    match a, o with
+    | [VZ d], [VZ pan; VZ elapsed] => let ok := C01_sleep_ok d (negb (pan =? 0)) elapsed in Some (relational ok ok)
+    | _, _ => Some (relational false false)
+    end
+  else if is k "sync.clocks" then
+    match a, o with
+    | [VL cr; VL cp], [VZ ok; VL orf; VL opr] =>
+        match getZs cr, getZs cp, getZs orf, getZs opr with
+        | Some cr, Some cp, Some orf, Some opr =>
+            Some (functional [VZ 1; VL (map VZ cr); VL (map VZ cp)] o (C01_clocks_ok cr cp (negb (ok =? 0)) orf opr))
+        | _, _, _, _ => None
+        end
+    | _, _ => None
+    end
   else None.
 
 Definition run_case (k : string) (a o : list value) : verdict :=
